@@ -67,3 +67,45 @@ REG.add(Contract("ModulePrefixer.prefix", module=M_DR, kind="classmethod", view=
                           "exists(Str, lambda v: (v in parsed_dependencies.dependencies[m]) and x == prefixed(prefix, v))))"],
                  locals=dict(modules="Set[Str]", dependencies="Dict[Str,Set[Str]]"), aliases_ok=["modules", "dependencies"],
                  properties=["C07", "C14"]))
+
+# ---------------------------------------------------------------- PumlParser: alias resolution and merge (C06), string view
+vals.declare_data("PumlModule", [("pm_name", ("str",)), ("pm_alias", ("opt", ("str",)))])
+PM = vals.DATA["PumlModule"]
+REG.method_family["PumlModule"] = "Module@puml"
+REG.specfuns["pm_name"] = lambda eng, st, m: V(("str",), PM["fields"]["pm_name"][0](m.x))
+REG.specfuns["pm_alias"] = lambda eng, st, m: vals.from_term(("opt", ("str",)), PM["fields"]["pm_alias"][0](m.x))
+REG.add(Contract("Module@puml.name", status="assumed", kind="property", params=dict(self="PumlModule"), returns="Str", defn="pm_name(self)", note="dataclass field"))
+REG.add(Contract("Module@puml.alias", status="assumed", kind="property", params=dict(self="PumlModule"), returns="Opt[Str]", defn="pm_alias(self)", note="dataclass field"))
+vals.declare_obj("PumlParser", dict())
+PP = "PumlParser"
+# resolve(a, m): the component name an identifier stands for
+REG.macro("resolved", ["A", "m"], "A[m] if (m in A) else m")
+REG.add(Contract(f"{PP}._unify_module", module=M_DP, kind="classmethod", view="string", params=dict(module="Str", all_aliases="Dict[Str,Str]"), returns="Str",
+                 defn="resolved(all_aliases, module)", properties=["C06"]))
+REG.add(Contract(f"{PP}._get_modules_by_alias", module=M_DP, kind="classmethod", view="string", params=dict(modules="Set[PumlModule]"), returns="Dict[Str,Str]",
+                 ensures=["forall(Str, lambda a: (a in result) == exists(PumlModule, lambda m: (m in modules) and (not is_none(pm_alias(m))) and unwrap(pm_alias(m)) == a))",
+                          "forall(Str, lambda a: implies(a in result, exists(PumlModule, lambda m: (m in modules) and (not is_none(pm_alias(m))) and unwrap(pm_alias(m)) == a and result[a] == pm_name(m))))"],
+                 properties=["C06"]))
+REG.add(Contract(f"{PP}._get_unified_modules", module=M_DP, kind="classmethod", view="string",
+                 params=dict(modules="Set[PumlModule]", unified_dependencies="Dict[Str,Set[Str]]"), returns="Set[Str]",
+                 # components = declared names + dependors + dependees
+                 ensures=["forall(Str, lambda x: (x in result) == (exists(PumlModule, lambda m: (m in modules) and x == pm_name(m)) or (x in unified_dependencies) "
+                          "or exists(Str, lambda k: (k in unified_dependencies) and (x in unified_dependencies[k]))))"],
+                 locals=dict(all_modules="Set[Str]"),
+                 loops={0: dict(sig="for dependee_modules in unified_dependencies.values()", invariant=[
+                     "forall(Str, lambda x: (x in all_modules) == (exists(PumlModule, lambda m: (m in modules) and x == pm_name(m)) or (x in unified_dependencies) "
+                     "or exists(Set[Str], lambda D: (D in seen) and (x in D))))"])},
+                 properties=["C06"]))
+REG.macro("by_alias_ok", ["modules", "A"],
+          "forall(Str, lambda a: (a in A) == exists(PumlModule, lambda m: (m in modules) and (not is_none(pm_alias(m))) and unwrap(pm_alias(m)) == a))")
+REG.add(Contract(f"{PP}._unify", module=M_DP, kind="method", view="string",
+                 params=dict(self=PP, modules="Set[PumlModule]", dependencies="Dict[Str,Set[Str]]"), returns="Tuple[Set[Str],Dict[Str,Set[Str]]]",
+                 # C06: the dependencies of a component are the union over ALL lines that name it as dependor -- by alias or by name --, every identifier resolved
+                 ensures=["exists(Dict[Str,Str], lambda A: by_alias_ok(modules, A) and "
+                          "forall(Str, lambda k: (k in result[1]) == exists(Str, lambda d: (d in dependencies) and k == resolved(A, d))) and "
+                          "forall(Str, Str, lambda k, x: implies(k in result[1], (x in result[1][k]) == exists(Str, Str, lambda d, e: (d in dependencies) and resolved(A, d) == k and (e in dependencies[d]) and x == resolved(A, e)))))"],
+                 locals=dict(unified_dependencies="Dict[Str,Set[Str]]", unified_dependees="Set[Str]"),
+                 loops={0: dict(sig="for (dependor, dependees) in dependencies.items()", invariant=[
+                     "forall(Str, lambda k: (k in unified_dependencies) == exists(Str, lambda d: ((d, dependencies[d]) in seen) and k == resolved(all_aliases, d)))",
+                     "forall(Str, Str, lambda k, x: implies(k in unified_dependencies, (x in unified_dependencies[k]) == exists(Str, Str, lambda d, e: ((d, dependencies[d]) in seen) and resolved(all_aliases, d) == k and (e in dependencies[d]) and x == resolved(all_aliases, e))))"])},
+                 properties=["C06"]))
